@@ -201,6 +201,8 @@ def correspondence(ctx):
     cases, meta, tests = _helper_cases(ctx, ctx.n(120, 1500))
     c2, m2, t2 = _backtrack_cases(ctx, ctx.n(240, 3000))
     cases.update(c2), meta.update(m2), tests.update(t2)
+    c3, m3, t3 = _pass_cases(ctx, ctx.n(20, 250))
+    cases.update(c3), meta.update(m3), tests.update(t3)
     dis += _run_cases("c03", "From Snax Require Import Base.Prelude Model.C03Schedule Model.C16Matcher.", cases, meta, tests,
                       nfiles=ctx.n(6, 12))
     return dis
@@ -309,6 +311,80 @@ func.func @{name}(%arg0 : memref<{m}x{ka}xi8>, %arg1 : memref<{k}x{n}xi8, stride
   func.return
 }}
 """
+
+
+def sample_affine_map(mp):
+    """(rows of A, b) of a linear AffineMap, by AffineMap.eval at 0 and the unit points; asserts linearity on two more points"""
+    nd = mp.num_dims
+    zero = [0] * nd
+    b = [int(v) for v in mp.eval(zero, [])]
+    cols = []
+    for j in range(nd):
+        e = list(zero)
+        e[j] = 1
+        cols.append([int(v) - bb for v, bb in zip(mp.eval(e, []), b)])
+    rows = [[cols[j][i] for j in range(nd)] for i in range(len(b))]
+    for x in ([2] * nd, list(range(1, nd + 1))):
+        assert [sum(r[j] * x[j] for j in range(nd)) + bb for r, bb in zip(rows, b)] == [int(v) for v in mp.eval(x, [])], "non-linear affine map"
+    return rows, b
+
+
+def run_pass(layers):
+    """parse the module, run insert-accfg-op + the real dart-scheduler pass; per dart.operation returns
+    (template, plain schedule of the operation, element sizes, plain emitted dart.schedule or None)"""
+    from typing import cast
+    from xdsl.parser import Parser
+    from snaxc.dialects import dart
+    from snaxc.tools.snax_opt_main import SNAXOptMain
+    from snaxc.transforms.dart.dart_scheduler import DartSchedulerPass
+    from snaxc.transforms.insert_accfg_op import InsertAccOp
+    text = "".join(_GEMM.format(**l) for l in layers)
+    xctx = SNAXOptMain(args=[__file__]).ctx
+    mod = Parser(xctx, text).parse_module()
+    InsertAccOp("snax_gemmx").apply(xctx, mod)
+    before = []
+    for op in mod.walk():
+        if isinstance(op, dart.OperationOp):
+            acc = xctx.get_acc(op.accelerator.data)
+            bounds = [int(b) for b in op.get_static_pattern_bounds()]
+            pats = [(list(bounds),) + sample_affine_map(p.data) for p in op.patterns.data]
+            sizes = [int(o.type.element_type.size) for o in op.operands]
+            before.append((acc.get_template(op), pats, sizes))
+    DartSchedulerPass().apply(xctx, mod)
+    mod.verify()
+    scheds = [op for op in mod.walk() if isinstance(op, dart.ScheduleOp)]
+    after = []
+    for op in scheds:
+        bounds = [int(b.value.data) for b in op.bounds.data]
+        after.append([(list(bounds),) + sample_affine_map(p.data) for p in op.patterns.data])
+    if len(after) != len(before):
+        after = [None] * len(before)
+    return [(T, pats, sizes, a) for (T, pats, sizes), a in zip(before, after)]
+
+
+def _pass_cases(ctx, n):
+    """L1 at the pass: the dart.schedule emitted by the real pass == scheduler(template, canonicalize(schedule),
+    [pure output stationary, memory flexible(element sizes)]) of the model"""
+    rng = ctx.rng
+    cases, meta = [], []
+    for i in range(n):
+        layers = gen_pass_module(rng)
+        try:
+            res = run_pass(layers)
+        except Exception as e:
+            ctx.notes.append(f"dart-scheduler pass raised on {layers}: {e!r}"[:300])
+            cases.append("(([] : tmpl), ([] : sched), [], Some ([] : sched))")   # cannot agree with the model: reported as L1 disagreement
+            meta.append(("dart-scheduler raised", layers, repr(e)[:200]))
+            continue
+        for k, (T, pats, sizes, emitted) in enumerate(res):
+            s = D.mk_schedule(pats)
+            em = "None" if emitted is None else f"(Some {D.coq_sched(D.mk_schedule(emitted))})"
+            cases.append(f"({D.coq_tmpl(T)}, {D.coq_sched(s)}, {zlist(sizes)}, {em})")
+            meta.append(("dart-scheduler", layers, k))
+            ctx.count({"op": "dart-scheduler pass", "layers": layers, "op_index": k}, True, f"pass{layers}{k}", "pass-L1")
+    test = ("fun c : tmpl * sched * list Z * option sched => match c with (T, s, z, r) => "
+            "option_eqb sched_eqb (match s_canon s with Some s' => scheduler matches (pass_checks z) T s' None | None => None end) r end")
+    return {"pass": cases}, {"pass": meta}, {"pass": test}
 
 
 def gen_pass_module(rng):
